@@ -3,6 +3,7 @@ package main
 import (
 	"math/big"
 	"reflect"
+	"sort"
 
 	"github.com/consensys/gnark-crypto/field/babybear"
 	bbext "github.com/consensys/gnark-crypto/field/babybear/extensions"
@@ -50,7 +51,12 @@ func smallGroups(r *vlib.Run) map[string]func() {
 			samples[n] = extSamples(p, mod)
 			others[reflect.TypeOf(p)] = []any{samples[n][2], samples[n][3]}
 		}
+		var tnames []string
 		for n := range types {
+			tnames = append(tnames, n)
+		}
+		sort.Strings(tnames)
+		for _, n := range tnames {
 			r.Sample(vlib.CheckAlias(r, g, &vlib.AliasSpec{Prefix: "alias/" + name + "/extensions." + n, Values: samples[n], Others: others, Skip: map[string]bool{"Sqrt": true}}))
 			// Sqrt is only defined on squares: its own menu of squares and fourth powers
 			if _, ok := reflect.TypeOf(samples[n][0]).MethodByName("Sqrt"); ok {
